@@ -41,7 +41,10 @@ def fmt_epoch(e):
 def make_file(path, epochs):
     with open(path, "w") as f:
         for i, e in enumerate(epochs):
-            f.write("1 26536U 00055A   %s  .00000000  00000-0  00000-0 0 %5d\n" % (fmt_epoch(e), i))
+            # fixed-column layout: the international designator (columns 10-17) is optional, the drag terms may be signed
+            desig = ("00055A  ", "        ", "98030BCD", "00055A  ")[(i * 7 + len(epochs)) % 4]
+            ndot = (" .00000000", "-.00000602", " .00001234")[(i + len(epochs)) % 3]
+            f.write("1 26536U %s %s %s  00000-0  00000-0 0 %5d\n" % (desig, fmt_epoch(e), ndot, i))
             f.write("2 26536  98.0000 %08d 0010000 000.0000 000.0000 14.10000000%5d\n" % (i, i))
 
 
